@@ -29,7 +29,8 @@ def main():
         for i, m in enumerate(muts):
             d = os.path.join(base, f'm{i}')
             os.makedirs(d)
-            shutil.copytree('/repo/edzed', os.path.join(d, 'edzed'),
+            # MUTANTS_BASE: the tree the mutants are applied to (default the real repository)
+            shutil.copytree(os.path.join(os.environ.get('MUTANTS_BASE', '/repo'), 'edzed'), os.path.join(d, 'edzed'),
                             ignore=shutil.ignore_patterns('__pycache__'))
             path = os.path.join(d, m['file'])
             text = open(path).read()
